@@ -11,7 +11,7 @@ SPEC = {
         "third-party decoders are oracles assumed panic-free and are outside the Model: insomniacslk/dhcp (DHCPv4 packet and option parsing in front of parseOption82 / ztp option 43), layeh.com/radius (RADIUS responses in pkg/radius/client.go), encoding/json (HA sync messages), regexp and bufio.Scanner (NAT ALG matching)",
         "NAT ALG: the Model covers the pass-through path only; whether a payload was rewritten is reported by the harness (oracle), the rewritten bytes are not compared",
         "RADIUS CoA/Disconnect datagrams (pkg/radius/coa.go) are modelled and proved under C15 (Model/Coa.v), not here",
-        "LCP/IPCP/IPv6CP ReceivePacket: the Model covers decoding, guarded option reads, Echo-Reply and Code-Reject construction; state transitions and the packets they send are C11's subject (harness reads state and lastIdentifier from the real object)",
+        "LCP/IPCP/IPv6CP ReceivePacket: the Model covers decoding, guarded option reads, Echo-Reply and Code-Reject construction, the close path of critical Code-Reject / Protocol-Reject of LCP (state + Terminate-Request) and unknown-code-leaves-state; the other state transitions are C11's subject (harness reads state and lastIdentifier from the real object); every call plus a follow-up GetState() runs under a 2 s limit",
         "CreateSession: table_wf (fewer than 65535 live sessions leave an id of 1..65535 free) is a hypothesis of the theorem (pigeonhole on a uint16-keyed Go map), exercised on concrete tables by the harness",
         "memory exhaustion and Go runtime behaviour are outside the Model; wall-clock limits (3-8 s per stateful call) stand in for 'completes within a bound' on the implementation side",
         "pure decoders are called without a timeout: a hang there would stall the driver, which the check reports as a failed run",
